@@ -238,11 +238,14 @@ def run(tier, replay=None):
     if r["violated"]:
         rep.violation("spec:" + r["violated"], "the specification itself violates %s" % r["violated"], r["out"])
     # flow-control ledger: every state reached by a valid prefix over the flow-control alphabet, then every frame
-    rw = vlib.tlc("H2Conn", write_cfg(wd, "mc_win.cfg", WIN, spec="FairSpec", depth=1, valid=5 if thorough else 3, emit="mc", focus="win"),
-                  PID, workers=8, timeout=3000 if thorough else 900, xmx="8g" if thorough else "4g")
-    rep.add_tlc(rw)
-    if rw["violated"]:
-        rep.violation("spec:" + rw["violated"], "the specification itself violates %s (flow-control ledger)" % rw["violated"], rw["out"])
+    # (quick tier: the same prefix states are visited by the Focus "win" cover generator below, which evaluates
+    # P_C15_React / P_C15_Total / TypeOK over the whole alphabet in each of them)
+    if thorough:
+        rw = vlib.tlc("H2Conn", write_cfg(wd, "mc_win.cfg", WIN, spec="FairSpec", depth=1, valid=3, emit="mc", focus="win"),
+                      PID, workers=8, timeout=3000, xmx="8g")
+        rep.add_tlc(rw)
+        if rw["violated"]:
+            rep.violation("spec:" + rw["violated"], "the specification itself violates %s (flow-control ledger)" % rw["violated"], rw["out"])
     for d in SELFTEST_DEVS:
         rd = vlib.tlc("H2Conn", write_cfg(wd, "mc_selftest.cfg", WIN, depth=1, valid=3, emit="mc", focus="win", dev=[d],
                                           checks="INVARIANTS P_C15_React"), PID, workers=4, timeout=900)
@@ -300,7 +303,9 @@ def run(tier, replay=None):
     cover, walks = [], []
     g = vlib.tlc("H2Conn", write_cfg(wd, "gen_cover.cfg", dict(SMALL, ping=1000), depth=4, valid=4, dev=devs, emit="cover",
                                      checks="INVARIANTS EmitState\nVIEW GenView"),
-                 PID, workers=4, timeout=1200, want_replay=True, replay_sink=cover.append)
+                 # one worker: strict breadth-first order, so that a state is always first reached by its shortest
+                 # prefix (the VIEW hides the prefix length) and the set of prefix states is the same in every run
+                 PID, workers=1, timeout=1200, want_replay=True, replay_sink=cover.append)
     rep.add_tlc(g)
     if g["violated"] or not cover:
         raise vlib.ToolError("cover generator failed: %s" % (g["violated"] or "no output"))
@@ -327,19 +332,21 @@ def run(tier, replay=None):
     # 4b. S->I, flow-control ledger: prefix states over the flow-control alphabet (streams open, answering, stalled;
     # windows default / raised / near 2^31-1 / exactly 2^31-1 / zero / negative) x the frames the ledger decides
     wcover, wwalks = [], []
-    gwc = vlib.tlc("H2Conn", write_cfg(wd, "gen_wcover.cfg", WIN, depth=8, valid=5 if thorough else 4, dev=devs, emit="cover", focus="win",
-                                       checks="INVARIANTS EmitState\nVIEW GenView"),
-                   PID, workers=4, timeout=1800, want_replay=True, replay_sink=wcover.append)
+    gwc = vlib.tlc("H2Conn", write_cfg(wd, "gen_wcover.cfg", WIN, depth=8, valid=5 if thorough else 4, emit="cover", focus="win",
+                                       checks="INVARIANTS TypeOK P_C15_React P_C15_Streams P_C15_Structural EmitState\nVIEW GenView"),
+                   PID, workers=1, timeout=1800, want_replay=True, replay_sink=wcover.append)
     rep.add_tlc(gwc)
+    if gwc["violated"] and gwc["violated"] != "EmitState":
+        rep.violation("spec:" + gwc["violated"], "the specification itself violates %s in a flow-control ledger state" % gwc["violated"], gwc["out"])
+        rep.finish()
     if gwc["violated"] or not wcover:
         raise vlib.ToolError("flow-control cover generator failed: %s" % (gwc["violated"] or "no output"))
-    for valid in (3, 6):
-        gww = vlib.tlc("H2Conn", write_cfg(wd, "gen_wwalk.cfg", WIN, depth=10, valid=valid, dev=devs, emit="walk", focus="win",
-                                           checks="INVARIANTS EmitState"),
-                       PID, workers=2, timeout=600, simulate="num=%d" % (4000 if thorough else 400), depth=40,
-                       want_replay=True, replay_sink=wwalks.append)
-        if gww["violated"]:
-            raise vlib.ToolError("flow-control walk generator reported %s" % gww["violated"])
+    gww = vlib.tlc("H2Conn", write_cfg(wd, "gen_wwalk.cfg", WIN, depth=10, valid=5, emit="walk", focus="win",
+                                       checks="INVARIANTS EmitState"),
+                   PID, workers=2, timeout=600, simulate="num=%d" % (8000 if thorough else 700), depth=40,
+                   want_replay=True, replay_sink=wwalks.append)
+    if gww["violated"]:
+        raise vlib.ToolError("flow-control walk generator reported %s" % gww["violated"])
     wseqs, wclasses, wpool = build_sequences(wcover, wwalks, 10 ** 9 if thorough else 3000, rnd)
     wseq_file = os.path.join(wd, "sequences_win.ndjson")
     write_sequences(wseq_file, WIN_REPLAY, wseqs)
